@@ -396,11 +396,11 @@ def run(ctx):
     quick = ctx.tier == "quick"
     configs = [
         dict(limit=1, callers=2, P=1 if quick else 2, secure=False),
-        dict(limit=2, callers=2, P=1 if quick else 2, secure=False),
+        dict(limit=2, callers=2, P=1, secure=False),
         dict(limit=3, callers=3, P=0 if quick else 1, secure=False),
         dict(limit=1, callers=2, P=0 if quick else 1, secure=True),
     ]
-    depth = 5 if quick else 7
+    depth = 5 if quick else 6
     work = []
     for p in configs:
         p = dict(p, seed=ctx.seed)
